@@ -677,6 +677,12 @@ func (e rfEngine) Exec(ci interface{}, st *Stats) (*Violation, interface{}, bool
 	switch c.Kind {
 	case "invalid":
 		return doInvalid()
+	case "valid":
+		st.Runs++
+		if ref := doParse(c.Text); ref.panicked == "" && ref.errStr != "" {
+			return fail("valid_source_rejected", "valid-rejected", c, "a text made of valid ES5 constructs only was rejected: %s", clip(ref.errStr))
+		}
+		return nil, nil, true
 	case "cut", "tree":
 		if c.Entry == "" || c.Entry == "parse" {
 			return doCut(min(c.At, len(T)), c.Style)
@@ -810,7 +816,7 @@ var syntaxZoo = []string{
 	"throw a\n",
 	"a.b.c['d'].e(f)(g)[h]=new a.b.c(d)",
 	"i++\nj--\n++i\n--j",
-	"x='é€𝄞 漢字  ';",
+	"x='é€𝄞 漢字';",
 	"y=/=a/;z=/=/g.test('=');w=a/=2;",
 	"r=[/=x/,/[=]/,/\\=/i];if(/=/.test(s))t=1;",
 	"q=a/b/c;q/=d;q=(a)/2/e;q=a++/2;q=b[0]/2/f;",
@@ -821,6 +827,8 @@ var syntaxZoo = []string{
 	"if(a){}else{}\nfor(;;)break;\nwhile(a)continue;\nl:{break l}",
 	"a=b\n++c;d=e\n--f;g=h\n/i/j;",
 	"var a\nvar b=1,c\nreturn_=1\n",
+	"a:for(var i=0;i<2;i++){if(i)continue a;(function(){a:{}})()}b:for(;;){(function(){b:for(;;){continue b}});break b}",
+	"for(var i=f(k in o),j=o[k in o];i<1;i++);for(x=(k in o);;)break;for(var q=[k in o];;)break;for(var r=function(){return k in o};;)break;for(var s={p:k in o};;)break;",
 	"var b٣={},é={},e\u0301x=1,a‿b=2,ⅷ=3;b٣.x٣=1;é.e\u0301=b٣.x٣;é.a‿b=b٣.ⅷ;",
 	"o.\\u0061b=1;o.a\\u0062c=2;o.if=o.new.typeof;o.$_=o._$9;",
 }
@@ -874,6 +882,14 @@ func (e rfEngine) Preflight(st *Stats) (*Violation, interface{}) {
 	for i, z := range syntaxZoo {
 		for _, text := range []string{z, valid + ";" + z, z + "\n" + valid} {
 			c := &RFCase{Engine: "readerfault", Seed: uint64(i + 1), Text: text}
+			// every zoo item is a valid ES5 program: the parser must accept it
+			st.Runs++
+			if ref := doParse(text); ref.panicked == "" && ref.errStr != "" {
+				v := viol("C04", "valid_source_rejected", "a text made of valid ES5 constructs only was rejected: %s", clip(ref.errStr))
+				v.Key = "valid-rejected"
+				c.Kind = "valid"
+				return v, c
+			}
 			if v, rc, _ := e.Exec(c, st); v != nil {
 				return v, rc
 			}
